@@ -75,7 +75,9 @@ impl<L: Language, CF: CostFunction<L>> Extractor<L, CF> {
         let mut children = Vec::new();
 
         // the best e-node may have redundant slots, which `i` does not mention.
-        let l = self.map[&i.id].0.apply_slotmap_fresh(&i.m);
+        // Its bound slots are named anew for every result: the stored names are visible in earlier results, and an
+        // argument of `i` with such a name would be captured.
+        let l = self.map[&i.id].0.refresh_private().apply_slotmap_fresh(&i.m);
         for child in l.applied_id_occurrences() {
             let n = self.extract(&child, eg);
             children.push(n);
